@@ -11,9 +11,9 @@ ok=[m for m in rechecked if m['recheck']['exit']==1]
 bad=[m['id'] for m in rechecked if m['recheck']['exit']!=1]
 cross=[m for m in metas if 'cross' in m]
 new='''### 8.4 Which check catches which seeded change
-%d deliberately property-breaking changes (five per property, seven for the eleven properties whose checks do not need the pipeline exploration) were written by independent sub-agents that were given
+%d deliberately property-breaking changes (six per property, nine for the eleven properties whose checks do not need the pipeline exploration) were written by independent sub-agents that were given
 only the property text and a scratch worktree of the repository (from the second wave on also a one-line description
-of the mechanisms already used, to avoid duplicates; waves 3-7 were asked for changes that manifest only under narrow
+of the mechanisms already used, to avoid duplicates; waves 3-9 were asked for changes that manifest only under narrow
 conditions, on rarely reached paths, or for inputs that a checker with small menus of typical values would not try).
 Each was confirmed by me in a fresh worktree before being kept under `seeded/<id>/` (`patch.diff`, `demo.py`,
 `meta.json`): the demonstration exits 0 on the pristine tree and non-zero with the change, the unedited repository suite
@@ -24,7 +24,7 @@ changed tree (`tools_seeded.py confirm`, `VERIF_REPO`).
 **Final detection run** (`tools_seeded.py recheck`, every change against the quick check of its property as committed):
 %d of %d re-evaluated changes are reported (exit 1 with a VIOLATION line)%s.
 
-**33 of the 112 were missed at first** (31 silently, one as a harness error, one by a check that deliberately left the clause
+**45 of the 141 were missed at first** (41 silently, three as a harness error, one by a check that deliberately left the clause
 to a sister property); in every case the oracle was right and the *driver* could not produce the behaviour, or a finding
 was identified too broadly. What was changed, by wave:
 
@@ -53,11 +53,29 @@ was identified too broadly. What was changed, by wave:
   fresh option dictionary), C10-g (one ordinary value triple, flags on -> tiny and zero-calorie quantities under all flag settings),
   C11-g (no seed family only partly a ratio), C13-g (numeric overrides one at a time -> pairs), C15-g (runner flags fixed -> one real run
   that saves the per-country tables).
+* wave 8 (18, all properties; asked for a specific sequence, state, input or two cooperating sites): C07-h (every supply a float64
+  array -> three numeric representations), C09-h (a fresh crop object per call -> call sequences on one object), C10-h (float64
+  sources only -> six numeric representations), C11-h (label getters only reached inside operations that build a fresh result; no
+  mixed-shape comparison -> queries, mixed pairs, elementwise replacement), C12-h (the two meat inputs always moved together -> each
+  alone), C15-h (no population override -> weights from the modelled population), C16-h (single deviations taken from the catastrophe
+  presets only, so `stored_food=zero` never met a kept stock reserve in the quick tier -> baseline-family deviation layer), C18-h
+  (the model's own post-condition assert escaped the helper product as a harness error -> reported as the violation it is);
+  C02-h (two feed-round calls on one `Optimizer` object) and C04-h (a run title containing a full stop) would have been missed and were
+  pre-empted on reading their descriptions (call histories on one object; title alphabet). Caught as they stood: C01-h, C03-h, C05-h,
+  C06-h, C08-h, C13-h, C14-h, C17-h.
+* wave 9 (11, the non-pipeline properties again, told which mechanisms wave 8 had used): C12-i (a food's waste set to exactly 0 falls
+  back to the crop figure: equal to the unperturbed value, lower than at half the waste -> boundary values and the chain w -> w/2 -> 0),
+  C10-i (found, but the stored replay did not re-judge the shape clause, so it surfaced as a harness error -> replay covers every clause);
+  C11-i (multiplier tables remembered per (population, kcal) only) and C14-i (accumulators kept on the runner object) were pre-empted
+  (settings histories in C11; histories in which one runner object serves every run, digest extended by the returned aggregate and the
+  reported countries). Caught as they stood: C06-i, C07-i, C08-i, C09-i, C13-i, C15-i, C17-i.
 
-Miss rate per wave of *independent* changes against the machinery as it stood: 1/18, 2/18, 7/18, 3-5/18, 7-8/18, 6-7/11, 6/11. The waves asked
+Miss rate per wave of *independent* changes against the machinery as it stood: 1/18, 2/18, 7/18, 3-5/18, 7-8/18, 6-7/11, 6/11, 8-10/18, 2-4/11. The waves asked
 for narrow conditions are the informative ones, and their rate did not fall: a bounded exhaustive check is only as good as its
 alphabet, and an adversary who is told to leave the alphabet finds the gaps. What they teach is recorded in section 7 (forms of
-vacuity actually met). The properties whose quick checks were never missed: C01, C02, C07, C17, C18 (C18 once pre-empted).
+vacuity actually met). The properties whose quick checks were never missed: C01, C17 (C02 and C18 only pre-empted or as a harness error).
+The checks of waves 8 and 9 were re-run against the earlier changes of the same property only where noted in `recheck`; the additions are
+additive (new jobs, new clauses), no earlier clause or menu was removed.
 
 **Cross-detection (partial).** For the first 12 changes (C01-a ... C06-b) every one of the 18 quick checks was run (`tools_seeded.py
 matrix`, stored under `cross` in their `meta.json`). Off-diagonal alarms: C01-a -> C02, C12; C01-b -> C02; C02-a -> C01; C03-a -> C08, C18;
